@@ -5,6 +5,10 @@ VERIF = os.path.dirname(os.path.dirname(os.path.abspath(__file__)))
 ALL = ["C%02d" % i for i in range(1, 21)]
 
 CLAIMED = {
+ "C07": dict(
+    text="Generated posting scripts (clauses, implications, both at-most-one encodings, pseudo-Boolean inequalities with both ROBDD constructions, preceded by other managers' encodings in the same process) judged by model-set equality: for ALL assignments of the user variables, extendability to a model of SATManager.clauses (PySAT on an independent translation) must equal direct integer evaluation of the accepted constraints - both directions - followed by solve()/value()/evalexpr() checks. Sampling of scripts, exhaustive over assignments per script.",
+    note="Trusted: the PySAT solver (cross-checked by brute force on small CNFs in a fixed fraction of cases) and the 20-line integer evaluator of the script. A posting that raises is a refusal.",
+    technique="property-based testing (Hypothesis) with a model-set-equality oracle against a reference evaluator", ref="4/C07"),
  "C16": dict(
     text="Type-directed generated expression trees built through the real operator overloads (plus a bounded-exhaustive family of left-deep operator chains and all five comparisons over 2 variables with constants -2..2), each compared under all 2^n assignments with a plain-int reference evaluation; normal-form and operand-immutability invariants checked on every built object. Sampling plus bounded exhaustion; no absence claim beyond the enumerated family.",
     note="Trusted: Python int arithmetic; the reference evaluator (30 lines). Unsupported operand orders (TypeError) are outside the domain.",
